@@ -6,6 +6,7 @@ CONSTANTS
   Cap = 2
   Weaken = "none"
   GapFix = FALSE
+  CertRounds = {1, 2}
   Direct = FALSE
   Timeouts = FALSE
 INVARIANT ContainerOK
